@@ -24,7 +24,7 @@ META = dict(
               "size in forked children (plain + AddressSanitizer builds); the outcome of every run is validated by "
               "ArenaStepTrace.tla",
     text="TLC decides NoDerefNull, Apart, Consistent, WarnIffTruncated, Balanced, Enough and that a step always returns "
-         "(done or catchable error) for every capacity 0..20 and 96 demand profiles; every memory size of the sweep of "
+         "(done or catchable error) for every capacity 0..32 and 192 demand profiles; every memory size of the sweep of "
          "each pool model runs 3 x mj_step in its own child process and its observable outcome (error class, warnings, "
          "ncon/nefc/nisland, contacts' efc addresses, stack balance, arena bound, recovery by mj_resetData) must be "
          "accepted by the intended specification; a signal or a sanitizer report has no explaining action.",
@@ -80,6 +80,17 @@ POOL = {
     "boxmid": dict(desc=["option timestep=0.005", "geom type=0 size=5,5,0.1"] +
                    sum([["body name=y%d pos=%g,0,0.049" % (k, 1.0 * k), "joint body=y%d type=0" % k] +
                         ["geom body=y%d type=6 size=0.05,0.05,0.05 pos=%g,0,0" % (k, 0.2 * j) for j in range(3)] for k in range(2)], []), percon=4),
+    # dual solvers with a sparse constraint Jacobian: mj_makeY / mj_makeAR put efc_Y*, efc_AR* on the arena
+    # (two stacks of two boxes: nefc = 80, nA = 3200; PGS, and Newton + noslip)
+    "stacks": dict(desc=["option timestep=0.005 solver=0 jacobian=1", "geom type=0 size=5,5,0.1"] +
+                   sum([["body name=k%d%d pos=%g,0,%g" % (i, k, 0.5 * i, 0.099 + 0.198 * k), "joint body=k%d%d type=0" % (i, k),
+                         "geom body=k%d%d type=6 size=0.1,0.1,0.1" % (i, k)] for i in range(2) for k in range(2)], []), percon=4),
+    "stacksns": dict(desc=["option timestep=0.005 solver=2 noslip_iterations=3 jacobian=1 cone=1", "geom type=0 size=5,5,0.1"] +
+                     sum([["body name=k%d%d pos=%g,0,%g" % (i, k, 0.5 * i, 0.099 + 0.198 * k), "joint body=k%d%d type=0" % (i, k),
+                           "geom body=k%d%d type=6 size=0.1,0.1,0.1" % (i, k)] for i in range(2) for k in range(2)], []), percon=3),
+    # the smallest dual + sparse case: one sphere on the plane (nefc = 4, nA = 16: a 64-byte window for efc_AR_colind)
+    "pgs1": dict(desc=["option timestep=0.005 solver=0 jacobian=1", "geom type=0 size=5,5,0.1",
+                       "body name=p0 pos=0,0,0.095", "joint body=p0 type=0", "geom body=p0 type=2 size=0.1,0,0"], percon=4),
     # explicit contact pairs only
     "pairs": dict(desc=["option timestep=0.005", "geom type=0 size=5,5,0.1",
                         "body name=b0 pos=0,0,0.2", "joint body=b0 type=0",
@@ -156,9 +167,10 @@ def project(r, ref, percon, consz):
 
 
 def sizes_for(maxuse, quick, variant):
+    """the coarse grid; every change of outcome between neighbours is then located to 4 bytes by refine()"""
     top = maxuse + 1500
     if quick:
-        stride = 104 if variant == "plain" else 616
+        stride = 168 if variant == "plain" else 840
     else:
         stride = 40 if variant == "plain" else 232
     ns = list(range(0, top, stride))
@@ -168,6 +180,39 @@ def sizes_for(maxuse, quick, variant):
     elif not quick:
         ns += list(range(0, 1600, 16)) + list(range(max(0, maxuse - 200), maxuse + 100, 16))
     return sorted(set(ns))
+
+
+def raw_key(r):
+    """what a run looked like, without anything that moves with N itself: two sizes with different keys have an
+    allocation-site boundary between them"""
+    if "died" in r:
+        return ("died", r["died"], r["kind"], r["where"])
+    return (r["make"], tuple(tuple(st[k] for k in FIELDS if k != "pbase") for st in r["steps"]), r["reset"])
+
+
+def sweep_refined(exe, name, desc, sizes, budget):
+    """coarse sweep, then bisection between every pair of neighbouring sizes whose runs differ, until the two
+    differ by 4 bytes (all arena requests are multiples of 4), so that no window of sizes with its own outcome can
+    hide between two grid points that straddle a boundary.  `budget` bounds the number of extra runs."""
+    runs = {r["N"]: r for r in sweep(exe, name, desc, sizes)}
+    extra = 0
+    while True:
+        ns = sorted(runs)
+        mids = []
+        for a, b in zip(ns, ns[1:]):
+            if b - a > 4 and raw_key(runs[a]) != raw_key(runs[b]):
+                m = (a + (b - a) // 2) // 4 * 4
+                if m <= a:
+                    m = a + 4
+                if m < b:
+                    mids.append(m)
+        mids = mids[:max(0, budget - extra)]
+        if not mids:
+            break
+        for r in sweep(exe, name, desc, mids):
+            runs[r["N"]] = r
+        extra += len(mids)
+    return [runs[n] for n in sorted(runs)], extra
 
 
 def sweep(exe, name, desc, sizes):
@@ -197,13 +242,14 @@ def run(ctx):
                "mjModel.narena is set to N before mj_makeData (the compiled form of <size memory=N/>)",
                "after a catchable error the run calls mj_resetData and must find an empty stack and arena")
     cfgp = lambda n: os.path.join(TLA, n)
-    models = sorted(POOL) if not ctx.quick else ["boxes", "boxmid", "fixed", "many", "multi4", "single"]
+    models = sorted(POOL) if not ctx.quick else ["boxes", "boxmid", "fixed", "many", "multi4", "pgs1", "single", "stacks", "stacksns"]
     J = {}
     with cf.ThreadPoolExecutor(16) as ex:
         J["mc"] = ex.submit(tlc.run, SPEC, cfgp("ArenaStep_MC.cfg"), coverage=True, timeout=1800, workers=4)
         J["steps"] = ex.submit(tlc.run, SPEC, cfgp("ArenaStep_Steps.cfg"), coverage=True, timeout=1800, workers=2)
         J["pair"] = ex.submit(tlc.run, SPEC, cfgp("ArenaStep_AsIsPair.cfg"), timeout=900, workers=1)
         J["island"] = ex.submit(tlc.run, SPEC, cfgp("ArenaStep_AsIsIsland.cfg"), timeout=900, workers=1)
+        J["dual"] = ex.submit(tlc.run, SPEC, cfgp("ArenaStep_AsIsDual.cfg"), timeout=900, workers=1)
         # the sweeps run meanwhile
         runs = {}
         refs = {}
@@ -218,12 +264,15 @@ def run(ctx):
         for mn in models:
             for variant in ("plain", "asan"):
                 sz = sizes_for(refs[mn]["maxuse"], ctx.quick, variant)
-                futs[(mn, variant)] = ex.submit(sweep, exes[variant], mn, POOL[mn]["desc"], sz)
+                futs[(mn, variant)] = ex.submit(sweep_refined, exes[variant], mn, POOL[mn]["desc"], sz,
+                                                (250 if variant == "plain" else 120) if ctx.quick else (1500 if variant == "plain" else 500))
+        nrefine = 0
         for k, f in futs.items():
-            runs[k] = f.result()
+            runs[k], nx = f.result()
+            nrefine += nx
         J = {k: v.result() for k, v in J.items()}
 
-    need = ["Begin", "Broad", "PushPair", "Narrow", "Contacts", "MakeCon", "Island", "Solve", "Reset", "NoArena"]
+    need = ["Begin", "Broad", "PushPair", "Narrow", "Contacts", "MakeCon", "Island", "ProjY", "ProjA", "Solve", "Reset", "NoArena"]
     ctx.tlc_ok(J["mc"], "ArenaStep_MC", need_actions=need)
     ctx.tlc_ok(J["steps"], "ArenaStep_Steps", need_actions=need)
     ctx.tlc_ok(J["pair"], "ArenaStep_AsIsPair", allow_violation=True)
@@ -232,6 +281,10 @@ def run(ctx):
     ctx.tlc_ok(J["island"], "ArenaStep_AsIsIsland", allow_violation=True)
     ctx.control("TLC: a failed island allocation that leaves the contacts' efc addresses violates Consistent",
                 J["island"].violation is not None and "Consistent" in J["island"].violation)
+
+    ctx.tlc_ok(J["dual"], "ArenaStep_AsIsDual", allow_violation=True)
+    ctx.control("TLC: mj_makeAR not testing the second pointer of its (efc_AR, efc_AR_colind) pair violates NoDerefNull",
+                J["dual"].violation is not None and "NoDerefNull" in J["dual"].violation)
 
     # ---- project every run, group identical event sequences, validate each distinct one once
     groups = {}
@@ -304,12 +357,13 @@ def run(ctx):
                            "events": g["ev"], "percon": POOL[m0]["percon"]})
     nruns = sum(len(v) for v in runs.values())
     ctx.cov["exhaustive"] = False
-    ctx.cov["rule"] = ("design: every capacity 0..20 x 96 demand profiles (1 step) and 0..12 x 3 profiles (3 steps, with the "
+    ctx.cov["rule"] = ("design: every capacity 0..32 x 192 demand profiles (1 step) and 0..24 x 3 profiles (3 steps, with the "
                        "liveness property that a step returns); binding: %d runs = %d pool models x memory sizes 0..maxuse+1500 "
-                       "(stride %s bytes, every 4-16 bytes near zero and near the full size) x {plain, asan}, 3 steps each in a "
+                       "(stride %s bytes, every 4-16 bytes near zero and near the full size, plus %d bisection runs that locate "
+                       "every change of outcome between neighbouring sizes to 4 bytes) x {plain, asan}, 3 steps each in a "
                        "forked child; %d distinct observable event sequences validated by ArenaStepTrace; non-trivial = the run "
                        "hit a warning, an error or died; distinct = (model, build, N)" % (
-                           nruns, len(models), "104 / 616(asan)" if ctx.quick else "40 / 232(asan)", len(traces)))
+                           nruns, len(models), "168 / 840(asan)" if ctx.quick else "40 / 232(asan)", nrefine, len(traces)))
 
 
 def replay(ctx, rp):
